@@ -71,4 +71,93 @@ theorem select_authorised (dir : Dir) (uid : Nat) (path : Bytes) (o : Owner) (m 
   · simp only [Option.some.injEq, Prod.mk.injEq] at h
     exact Or.inl h.1.symm
 
+/-! ## the connection: who is logged in and what that identity selected
+
+Events of one connection as the dispatcher sees them. The directory of role assignments changes under the session's feet
+(`assign`), the session itself logs in, selects and unselects. `Conn.sel` remembers, next to the selection, the directory
+as it was at the moment of the SELECT (a ghost: the code keeps only the ids). -/
+inductive CEv where
+  | login (uid : Nat) (ok : Bool)        -- LOGIN / AUTHENTICATE with the backend's verdict
+  | select (path : Bytes)                -- SELECT / EXAMINE
+  | unselect                             -- CLOSE / UNSELECT
+  | assign (dir : Dir)                   -- the administrator changes assignments: the directory is now `dir`
+
+structure Conn where
+  uid : Option Nat                               -- none: not authenticated
+  sel : Option (Owner × Bytes × Dir)             -- the selection and the directory it was made under
+  dir : Dir
+
+/-- `strict = true`: LOGIN is refused once the connection is authenticated (RFC 3501: valid only in the not-authenticated
+state) — the code as repaired. `strict = false`: what the code did before: a second successful LOGIN replaces the identity
+and leaves the selection of the first in place. -/
+def cstep (strict : Bool) (c : Conn) : CEv → Conn
+  | .login u ok =>
+    match c.uid with
+    | none => if ok then { c with uid := some u } else c
+    | some _ => if strict then c else (if ok then { c with uid := some u } else c)
+  | .select path =>
+    match c.uid with
+    | none => c
+    | some u =>
+      match selectTarget c.dir u path with
+      | some (o, m) => { c with sel := some (o, m, c.dir) }
+      | none => { c with sel := none }            -- a failed SELECT leaves nothing selected
+  | .unselect => { c with sel := none }
+  | .assign d => { c with dir := d }
+
+def crun (strict : Bool) (c : Conn) : List CEv → Conn
+  | [] => c
+  | e :: es => crun strict (cstep strict c e) es
+
+/-- the selection belongs to the identity the connection holds now: its own store, or a role store assigned to it when it
+selected; and nothing is selected on a connection nobody is logged in on -/
+def ConnOK (c : Conn) : Prop :=
+  match c.sel with
+  | none => True
+  | some (o, _, d) => ∃ u, c.uid = some u ∧ (o = .user u ∨ ∃ r, o = .role r ∧ d.assigned u r = true)
+
+theorem cstep_ok (c : Conn) (e : CEv) (h : ConnOK c) : ConnOK (cstep true c e) := by
+  cases e with
+  | login u ok =>
+    unfold cstep
+    cases hu : c.uid with
+    | none =>
+      -- nobody logged in: nothing is selected
+      have hs : c.sel = none := by
+        unfold ConnOK at h
+        cases hsel : c.sel with
+        | none => rfl
+        | some x => obtain ⟨o, m, d⟩ := x; simp only [hsel] at h; obtain ⟨u', hu', _⟩ := h; rw [hu] at hu'; cases hu'
+      by_cases hok : ok = true
+      · simp only [hok, if_true]; unfold ConnOK; simp [hs]
+      · simp only [hok]; exact h
+    | some v => simpa using h
+  | select path =>
+    unfold cstep
+    cases hu : c.uid with
+    | none => exact h
+    | some u =>
+      simp only []
+      cases ht : selectTarget c.dir u path with
+      | none => unfold ConnOK; simp
+      | some x =>
+        obtain ⟨o, m⟩ := x
+        unfold ConnOK
+        simp only []
+        exact ⟨u, rfl, select_authorised c.dir u path o m ht⟩
+  | unselect => unfold cstep ConnOK; simp
+  | assign d =>
+    unfold cstep ConnOK
+    unfold ConnOK at h
+    cases hsel : c.sel with
+    | none => simp
+    | some x => obtain ⟨o, m, d'⟩ := x; simp only [hsel] at h ⊢; exact h
+
+theorem crun_ok (c : Conn) (es : List CEv) (h : ConnOK c) : ConnOK (crun true c es) := by
+  induction es generalizing c with
+  | nil => exact h
+  | cons e es ih => exact ih _ (cstep_ok c e h)
+
+def Conn.fresh (d : Dir) : Conn := { uid := none, sel := none, dir := d }
+
 end Raven.World
